@@ -244,7 +244,8 @@ PROPERTIES["C03"] = P(
     "stores size and checksum and is acknowledged; duplicates are absorbed.",
     "Level 'other': 'with at most K faults and limits > K the file is eventually delivered' is a liveness statement about schedules of "
     "two composed state machines; contracts decide the mechanisms it relies on, the pigeonhole argument over rounds is on paper. A PASS "
-    "means every such mechanism meets its contract, not that C03 is proved. " + ENV,
+    "means every such mechanism meets its contract, not that C03 is proved. One open finding is pinned to a clause of this check and "
+    "reported as KNOWN-FINDING: F26 (a lost ACK(EOF) is not recovered because a re-sent EOF PDU is never acknowledged again). " + ENV,
     "Clauses tagged C03 in both handlers.", [STUBS, ENV, "fault model and fairness (paper)"], [STUBS])
 
 NOT_APPLICABLE = {}
